@@ -191,11 +191,16 @@ class AppProto(Protocol):
 
 
 class AppFactory(Factory):
-    def __init__(self, run):
+    def __init__(self, run, decoy=False):
         self.run = run
         self.protos = []
+        self.decoy = decoy
 
     def buildProtocol(self, addr):
+        if self.decoy:
+            self.run.sim.fail(self.run.prop + '.protocol-from-another-connects-factory',
+                              'the application protocol of this connection was built by the factory handed to an EARLIER '
+                              'connect() on the same endpoint object (whose own SOCKS connection never got an answer)')
         self.run.on_app_event('buildProtocol')
         p = AppProto(self.run)
         self.protos.append(p)
@@ -207,14 +212,24 @@ HOST_CHARS = 'abcdefghijklmnopqrstuvwxyz0123456789-'
 
 
 
+class _Started(Exception):
+    def __init__(self, d):
+        self.d = d
+
+
 class Blackhole(Peer):
-    """a SOCKS listener that accepts the connection and never says anything"""
+    """a SOCKS listener that accepts the connection and never says anything (or only selects the method)"""
+
+    def __init__(self, method_reply=False):
+        self.method_reply = method_reply
 
     def connection_made(self, conn):
         self.conn = conn
 
     def data_received(self, data):
-        pass
+        if self.method_reply:
+            self.method_reply = False
+            self.conn.send(b'\x05\x00')
 
     def connection_lost(self, clean):
         pass
@@ -512,13 +527,31 @@ class SocksRun(object):
         self.draw_target()
         self.draw_server()
 
+        self.skip_first = False
+
         def accept(dest):
+            if self.skip_first:
+                self.skip_first = False
+                return Blackhole()
             self.peer = SocksPeer(self)
             return self.peer
         sim.net.listen('tcp', 9050, accept)
         ep = TCP4ClientEndpoint(sim.reactor, '127.0.0.1', 9050)
         self.factory = AppFactory(self)
+        reuse = (self.req_type == 'CONNECT' and not self.unencodable and sim.params.get('cut') is None and
+                 ch.chance(1, 8, 'reuseendpoint'))
         try:
+            if reuse:
+                # the endpoint object is used a second time, with another factory: the first use (towards a SOCKS
+                # port that never answers) must leave nothing behind on it
+                sim.probe('endpoint-object-used-twice')
+                self.skip_first = True
+                tse = tsocks.TorSocksEndpoint(ep, self.host, self.port)
+                tse.connect(AppFactory(self, decoy=True)).addErrback(lambda f: None)
+                while sim.reactor.connects:
+                    sim.reactor._resolve_connect(sim.reactor.connects[0])
+                d = tse.connect(self.factory)
+                raise _Started(d)
             web = (self.prop == 'C06' and self.req_type == 'CONNECT' and not self.unencodable and self.port > 0 and
                    self.target_kind in ('host', 'ipv4') and all(c.isalnum() or c in '.-' for c in self.host) and
                    ch.chance(1, 5, 'webagent'))
@@ -530,6 +563,12 @@ class SocksRun(object):
                 sim.log('target', 'web-agent', url.decode('ascii')[:80])
                 agent = tweb.tor_agent(sim.reactor, ep)
                 d = defer.maybeDeferred(lambda: agent).addCallback(lambda a: a.request(b'GET', url))
+            elif self.req_type == 'CONNECT' and self.prop == 'C06' and self.target_kind == 'host' and ch.chance(1, 4, 'torstreamvia'):
+                # the same CONNECT through the Tor object's convenience method
+                from txtorcon.controller import Tor
+                from txtorcon.torcontrolprotocol import TorControlProtocol
+                sim.probe('api-tor-stream-via')
+                d = Tor(sim.reactor, TorControlProtocol()).stream_via(self.host, self.port, socks_endpoint=ep).connect(self.factory)
             elif self.req_type == 'CONNECT':
                 d = tsocks.TorSocksEndpoint(ep, self.host, self.port).connect(self.factory)
             elif self.req_type == 'RESOLVE':
@@ -538,6 +577,8 @@ class SocksRun(object):
             else:
                 sim.probe('resolve-ptr')
                 d = tsocks.resolve_ptr(ep, self.host)
+        except _Started as st:
+            d = st.d
         except Exception as e:
             self.sync_error = e
             sim.log('sync-error', type(e).__name__)
@@ -547,8 +588,8 @@ class SocksRun(object):
         self.fault_done = False
         n = 0
         while n < 3000:
-            if self.conn is None and sim.net.conns:
-                self.conn = sim.net.conns[0]
+            if self.conn is None and self.peer is not None and getattr(self.peer, 'conn', None) is not None:
+                self.conn = self.peer.conn
                 self.conn.transport.on_write = self.on_client_write
                 self.conn.seg_mode = ch.pick(['mixed', 'mixed', 'whole', 'bytewise'], 'segmode')
                 cut = sim.params.get('cut')
@@ -560,7 +601,11 @@ class SocksRun(object):
                     # a second, overlapping request for the same host text with another port, through another SOCKS
                     # listener that never answers: requests must not influence each other
                     sim.probe('overlapping-request-same-host')
-                    sim.net.listen('tcp', 9150, lambda dest: Blackhole())
+                    # ... or that selects the method and then falls silent, so that the other request is written
+                    # (a CONNECT to an IPv6 literal is the recorded finding: only behind its gate)
+                    v6 = self.target_kind == 'ipv6'
+                    talk = ch.chance(1, 2, 'bystandertalks') and (not v6 or sim.gate('connect-target-ipv6'))
+                    sim.net.listen('tcp', 9150, lambda dest: Blackhole(method_reply=talk))
                     ep2 = TCP4ClientEndpoint(sim.reactor, '127.0.0.1', 9150)
                     other = (self.port + 363) % 65536 if self.req_type == 'CONNECT' else 443
                     try:
@@ -673,7 +718,7 @@ class SocksRun(object):
             if self.method_reply != b'\x05\x00':
                 return
             if self.request_seen is None and m[0] != 'fail':
-                sim.fail('C06.request-incomplete-or-missing',
+                sim.fail('C06.request-incomplete-or-missing-%s-%s' % (self.req_type.lower(), self.target_kind),
                          'server never received a complete request; got %s after the greeting (target %r port %d %s)' % (
                              bytes(self.peer.all[3:]).hex()[:80], self.host[:40], self.port, self.req_type))
             if self.request_seen is None and m[0] == 'fail' and self.method_reply == b'\x05\x00':
